@@ -19,21 +19,21 @@ BREAKERS = [{'desc': 'I and J swapped when planning',
   'module': 'GcodeHandlers',
   'new': '            xyPairs = self.planArc(x, y, j, i, clockwise)',
   'old': '            xyPairs = self.planArc(x, y, i, j, clockwise)'},
- {'desc': 'zero segments for a degenerate arc (original F8)',
-  'functions': ['GcodeHandlers.GcodeHandlers.planArc'],
-  'module': 'GcodeHandlers',
-  'new': '        numSegments = int(math.ceil(arcLength / MM_PER_ARC_SEGMENT))',
-  'old': '        numSegments = max(1, int(math.ceil(arcLength / MM_PER_ARC_SEGMENT)))'},
- {'desc': 'segments three units long',
-  'functions': ['GcodeHandlers.GcodeHandlers.planArc'],
-  'module': 'GcodeHandlers',
-  'new': 'MM_PER_ARC_SEGMENT = 3\n',
-  'old': 'MM_PER_ARC_SEGMENT = 1\n'},
  {'desc': 'direction inverted',
   'functions': ['GcodeHandlers.GcodeHandlers.planArc'],
   'module': 'GcodeHandlers',
   'new': '        if (not clockwise):\n            angularTravel -= TWO_PI',
   'old': '        if (clockwise):\n            angularTravel -= TWO_PI'},
+ {'desc': 'segments three units long',
+  'functions': ['GcodeHandlers.GcodeHandlers.planArc'],
+  'module': 'GcodeHandlers',
+  'new': 'MM_PER_ARC_SEGMENT = 3\n',
+  'old': 'MM_PER_ARC_SEGMENT = 1\n'},
+ {'desc': 'zero segments for a degenerate arc (original F8)',
+  'functions': ['GcodeHandlers.GcodeHandlers.planArc'],
+  'module': 'GcodeHandlers',
+  'new': '        numSegments = int(math.ceil(arcLength / MM_PER_ARC_SEGMENT))',
+  'old': '        numSegments = max(1, int(math.ceil(arcLength / MM_PER_ARC_SEGMENT)))'},
  {'desc': 'y sample uses cos',
   'functions': ['GcodeHandlers.GcodeHandlers.planArc'],
   'module': 'GcodeHandlers',
